@@ -26,7 +26,12 @@ def get_func_in_module(module: str, qualname: str) -> Callable[..., Any]:
         InvalidTypeError if we the name isn't a function
     """
     func = get_name_in_module(module, qualname)
-    func = inspect.unwrap(func)
+    try:
+        func = inspect.unwrap(func)
+    except ValueError:
+        # a __wrapped__ chain that never ends (an object answering every
+        # attribute with another such object)
+        raise InvalidTypeError(f"{module}.{qualname} cannot be unwrapped.")
     if isinstance(func, types.MethodType):
         func = func.__func__
     elif isinstance(func, property):
@@ -46,13 +51,17 @@ def get_func_in_module(module: str, qualname: str) -> Callable[..., Any]:
         raise InvalidTypeError(
             f"{module}.{qualname} is of type '{type(func)}', not function."
         )
-    if "<locals>" in func.__qualname__:
-        # The name is bound to a function made by another function (a closure,
-        # the wrapper of a decorator that does not use functools.wraps). It
-        # cannot be found under its own name again and has no place in a stub.
-        raise InvalidTypeError(
-            f"{module}.{qualname} is the function {func.__qualname__}, defined inside another function."
-        )
+    if isinstance(func, types.FunctionType) and "." in func.__qualname__:
+        # Stub generation finds the function again under its OWN name. That fails
+        # for a function made by another function (a closure, the wrapper of a
+        # decorator that does not use functools.wraps) and for a method kept
+        # under a new name after its class was removed: no place in a stub.
+        try:
+            get_name_in_module(func.__module__, func.__qualname__, inspect.getattr_static)
+        except NameLookupError:
+            raise InvalidTypeError(
+                f"{module}.{qualname} is the function {func.__qualname__}, which cannot be found under that name."
+            )
     if isinstance(func, types.BuiltinFunctionType):
         # A stub needs the function's module and signature; not every builtin
         # has them (max, a bound method such as [].append).
